@@ -21,6 +21,8 @@ def assert_binding():
     if not f.startswith(os.path.realpath(REPO) + os.sep):
         raise RuntimeError('Geometry3D imported from %s, expected under %s' % (f, REPO))
     G.set_log_level('CRITICAL')
+    import logging
+    logging.disable(logging.CRITICAL)
 
 
 def assert_default_tolerance():
